@@ -352,7 +352,7 @@ class GeoPolygon(PolygonBase, SimpleShapeMixin):
     def bounds(self) -> Tuple[float, float, float, float]:
         lons, lats = cast(
             Tuple[List[float], List[float]],
-            zip(*[y.to_float() for y in self.outline])
+            zip(*[y.to_float()[:2] for y in self.outline])
         )
         return min(lons), min(lats), max(lons), max(lats)
 
@@ -1226,7 +1226,7 @@ class GeoRing(PolygonBase):
 
         lons, lats = cast(
             Tuple[List[float], List[float]],
-            zip(*[y.to_float() for y in self.bounding_coords()])
+            zip(*[y.to_float()[:2] for y in self.bounding_coords()])
         )
         return min(lons), min(lats), max(lons), max(lats)
 
@@ -1403,7 +1403,7 @@ class GeoLineString(SingleShapeBase, LineLikeMixin, SimpleShapeMixin):
     def bounds(self) -> Tuple[float, float, float, float]:
         lons, lats = cast(
             Tuple[List[float], List[float]],
-            zip(*[y.to_float() for y in self.vertices])
+            zip(*[y.to_float()[:2] for y in self.vertices])
         )
         return min(lons), min(lats), max(lons), max(lats)
 
@@ -1411,7 +1411,7 @@ class GeoLineString(SingleShapeBase, LineLikeMixin, SimpleShapeMixin):
     def centroid(self) -> Coordinate:
         lon, lat = [
             round_half_up(statistics.mean(x), 7)
-            for x in zip(*[y.to_float() for y in self.vertices])
+            for x in zip(*[y.to_float()[:2] for y in self.vertices])
         ]
         return Coordinate(lon, lat)
 
@@ -1433,7 +1433,7 @@ class GeoLineString(SingleShapeBase, LineLikeMixin, SimpleShapeMixin):
         return GeoCircle(centroid, max_dist, dt=self.dt)
 
     def circumscribing_rectangle(self) -> GeoBox:
-        lons, lats = zip(*[y.to_float() for y in self.vertices])
+        lons, lats = zip(*[y.to_float()[:2] for y in self.vertices])
         return GeoBox(
             Coordinate(min(lons), max(lats)),
             Coordinate(max(lons), min(lats)),
